@@ -22,6 +22,11 @@ CLAIMED = {
         note=PROOF_NOTE + "PARTIAL: resolution-equivalence theorem pending; full_moon parser and visitor order assumed (reproduced hook by hook, divergence = table mismatch); std enters through an oracle computed by the real code.",
         technique="Lean 4 theorems over the lint given the scope tables (partial) + three-way correspondence: real ScopeManager tables / Lean ScopeVisitor model / environment-passing Lua resolver",
         design="§4 C03"),
+    "C04": dict(
+        text="Lean 4 models of the seventeen closed-form lints (every Visitor hook they implement, their numeral / escape / side-effect / parameter-count helpers) over the full Lua 5.1 syntax tree, and by-value specifications written from docs/src/lints (Doc.*), canonical-pattern specifications (Canon.*) and numeral semantics (exact rational thresholds for `denotes zero` / `<= 1`, escape decoding). Proved for all programs (no bound on size, nesting or context): per-lint soundness (a model diagnostic implies the documented condition, e.g. divide_by_zero_sound, suspicious_reverse_loop_sound, ifs_same_cond_sound, almost_swapped_sound, unbalanced lintAssignment_iff), canonical-pattern completeness under arbitrary enclosing contexts via traversal lemmas (every statement / expression of the tree is visited: *_canon theorems), by-value theorems for numerals (number_is_zero_by_value, *_by_value) and the fixed-defect witnesses; remaining partial statements (bad_string_escape general soundness, duplicate_keys under plainKeys, mismatched_arg_count lattice) are named in the property files.",
+        note=PROOF_NOTE + "PARTIAL where named: bad_string_escape and duplicate_keys are proved on their documented families and otherwise decided by the three-way run; mismatched_arg_count's flow heuristics are modelled and compared, its documented condition is proved for single-definition programs; six recorded findings (duplicate_keys by raw text / by spelling, mismatched_arg_count x2, multiple_statements inside a closure in an if condition). full_moon parser and Visitor order assumed.",
+        technique="Lean 4 theorems lint-model => documented condition and canonical pattern => lint-model fires in every context (traversal lemmas), by-value numeral theorems + three-way correspondence implementation / model / by-value specification on per-lint template families with re-spelled literals in random contexts",
+        design="§4 C04"),
     "C05": dict(
         text="Machine-checked proofs over a Lean 4 model of visit_function_call / get_argument_type / PassedArgumentType (call style, the three argument forms, the expected/max/vararg/maybe-more arithmetic, the per-argument loop, all Lua 5.1 expression forms): `.`/`:` misuse is reported exactly when the style differs (C05_style); a count problem is reported iff the argument count lies outside the documented range or the call has more arguments than parameters with a trailing call/`...` (C05_count; C05_count_exact is the property's wording outside that case, which is refuted for the unrestricted statement by `math.abs(1, f())`); every reported type problem on arguments without long-bracket literals and without arithmetic on string-typed operands is a definite mismatch against an independent static reading of the Lua manual (C05_types), constant lists are judged by content for short-quoted literals (C05_constant), and a call satisfying the definition is not reported (C05_clean). Tied to the code by running the real lint on generated single-function libraries x generated and bounded-exhaustive calls; the check reports the three places where the unchanged code leaves the property (long-bracket literals vs constant lists, open over-full calls, arithmetic on string literals).",
         note=PROOF_NOTE + "the property as worded is false of the current code in three recorded ways, so C05_count/C05_types/C05_clean carry the hypotheses `overfullOpen = false` / `tameArgs`; each hypothesis is shown necessary by a decide-checked counterexample and by impl-vs-spec BAD verdicts in the run. String escapes are not interpreted; the static reading is metamethod-free; name lookup (C06) and scope resolution (C01/C07) are outside the model.",
